@@ -113,6 +113,9 @@ fn run_state(scen: &Scenario, store: &Store, seen: &HashMap<Store, u32>, hooks: 
     let sh = h(store);
     if initial {
         on_initial(&st, &mut ps.sink);
+        if scen.pre_migrate.is_some() {
+            crate::oracles::check_carried_over(&scen.seed, &st, &mut ps.sink);
+        }
         for _ in ps.lasts.len()..ps.sink.viols.len() {
             ps.lasts.push(vec![]);
         }
